@@ -18,6 +18,9 @@ pub struct Corpus {
     pub valid: Vec<[u8; 32]>,
     /// even, canonical s whose discriminant is a non-square
     pub nonsquare: Vec<[u8; 32]>,
+    /// valid encodings at the edges of the range: the largest valid s below q
+    /// (top limb equal to the modulus' top limb) and the smallest ones above 0
+    pub boundary_valid: Vec<[u8; 32]>,
 }
 
 fn arr32(v: &[u8]) -> [u8; 32] {
@@ -59,7 +62,32 @@ impl Corpus {
                 Err(_) => {}
             }
         }
-        Corpus { valid, nonsquare }
+        let mut boundary_valid = Vec::new();
+        // q is odd, so q - k is even (non-negative) for odd k; k = 1 is s = -1
+        let mut k = 3u32;
+        while boundary_valid.len() < 4 {
+            let s = &f.p - k;
+            if rd::decode_s(&s).is_ok() {
+                boundary_valid.push(arr32(&f.to_le(&s)));
+            }
+            k += 2;
+        }
+        let mut k = 2u32;
+        while boundary_valid.len() < 8 {
+            let s = BigUint::from(k);
+            if rd::decode_s(&s).is_ok() {
+                boundary_valid.push(arr32(&f.to_le(&s)));
+            }
+            k += 2;
+        }
+        for b in &boundary_valid {
+            valid.push(*b);
+        }
+        Corpus {
+            valid,
+            nonsquare,
+            boundary_valid,
+        }
     }
 }
 
@@ -513,6 +541,7 @@ pub fn span_of(p: &Payload) -> usize {
         Payload::RawField { which, .. } => fld(*which).nbytes,
         Payload::VecField { which, idxs } => 8 + fld(*which).nbytes * idxs.len(),
         Payload::Fmt { .. } => 0,
+        Payload::ElemUncompressed { .. } => 64,
     }
 }
 
@@ -589,6 +618,10 @@ pub fn payload(rng: &mut Rng, c: &Corpus, npool: usize, nf: usize, focus: &str) 
                 idxs: (0..l).map(|_| idx(rng, nf)).collect(),
             }
         }
+        _ if rng.chance(1, 3) => Payload::ElemUncompressed {
+            idx: idx(rng, npool),
+            as_: elem_as(rng),
+        },
         _ => Payload::Fmt {
             idx: idx(rng, npool),
             affine: rng.chance(1, 3),
